@@ -519,3 +519,48 @@ Example lock_blocks_second_load :
   exists y, run [CAdmit; CAdmit; CRun 0] (init two_words_history (world0 0)) = Some y /\
     s_dlock (y_world y) = true /\ step (CRun 1) y = None /\ step (CRun 0) y <> None.
 Proof. eexists. split; [vm_compute; reflexivity|]. repeat split; vm_compute; congruence. Qed.
+
+(* ---------- HISTORY (labelled): the dispatcher with the add-word instrs as they were BEFORE cfbe845 (no lock) ---------- *)
+Definition exec_before_cfbe845 (i : instr) (l : locals) (w : world) : option (list instr * locals * world) :=
+  match i with
+  | ILoadUD => Some ([], lset_ud (w_udict w) l, w)
+  | IWriteUD => Some ([], l, set_udict (add_word (l_word l) (l_ud l)) w)
+  | ILoadFD =>
+      if is_file (l_url l) then Some ([ITmpFD; IWriteFD], lset_fd (fdict_of w (l_url l)) l, w) else Some ([], lset_fd [] l, w)
+  | IWriteFD => Some ([], l, set_fdict (upsert (l_url l) (add_word (l_word l) (l_fd l)) (w_fdict w)) w)
+  | _ => exec i l w
+  end.
+
+Definition step_before_cfbe845 (c : choice) (y : sys) : option sys :=
+  match c with
+  | CAdmit => step CAdmit y
+  | CRun id =>
+      match find_h id (y_flight y) with
+      | Some h =>
+          match h_prog h with
+          | i :: p =>
+              match exec_before_cfbe845 i (h_loc h) (y_world y) with
+              | Some (push, l', w') => Some (mksys w' (replace_h (mkh id (push ++ p) l') (y_flight y)) (y_todo y) (y_next y))
+              | None => None
+              end
+          | [] => None
+          end
+      | None => None
+      end
+  end.
+
+Fixpoint run_before_cfbe845 (cs : list choice) (y : sys) : option sys :=
+  match cs with
+  | [] => Some y
+  | c :: cs' => match step_before_cfbe845 c y with Some y' => run_before_cfbe845 cs' y' | None => None end
+  end.
+
+(* both commands load the (empty) user dictionary, then both save: the first word is overwritten *)
+Definition lost_word_schedule : list choice :=
+  [CAdmit; CAdmit; CRun 0; CRun 1; CRun 0; CRun 0; CRun 1; CRun 1; CRun 0; CRun 0; CRun 1; CRun 1].
+
+Example word_lost_before_cfbe845 :
+  (exists y, run_before_cfbe845 lost_word_schedule (init [AddUser 5 (UFile 0 0); AddUser 6 (UFile 0 1)] (world0 0)) = Some y /\
+     quiescentb y = true /\ w_udict (y_world y) = [6]) /\
+  run lost_word_schedule (init [AddUser 5 (UFile 0 0); AddUser 6 (UFile 0 1)] (world0 0)) = None.
+Proof. split; [eexists; split; [vm_compute; reflexivity|split; vm_compute; reflexivity]|vm_compute; reflexivity]. Qed.
